@@ -7,7 +7,7 @@ is reconstructed as a gated term  γ(discr(scrutinee); variant -> value)  and ev
 compared with its row.  Exhaustiveness is checked against the enum definition.
 """
 from . import mir, tdctx, canon
-from .base import verdict_of, errtext
+from .base import Mentions, verdict_of, errtext
 from .base import (inst, OK, VIOLATION, UNDECIDED, P, C, F, K, ANY, Agg, AggV, VF, T, match, strip,
                    gamma_arms, bool_arms, callee_is)
 from .facts import CheckerError
@@ -56,7 +56,8 @@ def table_compile_plan():
 
 def table_from_sexpr(w="helper"):
     R = lambda v, i: C(w, VF(1, v, i), P(2))
-    lit = lambda inner, pol: AggV("Literal", C("unwrap", C("get", P(2), inner)), K(pol))
+    # the label is looked up for the variable's own name in the mapping the worker was given (any spelling of the lookup)
+    lit = lambda inner, pol: AggV("Literal", Mentions(inner, P(2)), K(pol))
     return {
         "Var": lit(VF(1, "Var", 0), 1),
         "Or": AggV("Or", R("Or", 0), R("Or", 1)),
@@ -81,7 +82,8 @@ PLAN_CTORS = {
 }
 
 
-def check_table(rule, fn, te, ret, table, enum_variants, diverging=(), extra_strip=("new",)):
+def check_table(rule, fn, te, ret, table, enum_variants, diverging=(), extra_strip=("new",), elsewhere=()):
+    """`elsewhere`: variants checked by a dedicated sub-rule rather than by a table row"""
     out = []
     arms = gamma_arms(te, ret)
     if arms is None:
@@ -94,6 +96,10 @@ def check_table(rule, fn, te, ret, table, enum_variants, diverging=(), extra_str
                 out.append(inst(rule, key, UNDECIDED, fn, None, "variant documented as unsupported now returns a value"))
             continue
         if v not in table:
+            if v not in elsewhere:
+                # a variant the table has no row for (added after the table was written): say so instead of passing
+                # over it silently
+                out.append(inst(rule, key, UNDECIDED, fn, None, "variant %s has no row in this rule's table: its arm is not checked" % v))
             continue
         if v not in arms:
             # may be folded into a 'rest' arm
@@ -238,6 +244,12 @@ def _worker(prog, entry, owner):
         if (nested or called) and any(f in prog.resolve(cs.callee) for g in bodies for cs in g.terms.calls
                                      if cs.callee.name == f.name and (cs.callee.local or getattr(cs.callee, "res_local", False))):
             cands.append(f)
+    if len(cands) > 1:
+        # several recursive helpers (the entry may also call a recursive query such as `unique_variables`): the worker is
+        # the one whose result type is the entry point's own
+        same = [f for f in cands if f.locals and e.locals and f.locals[0]["s"] == e.locals[0]["s"]]
+        if len(same) == 1:
+            cands = same
     if len(cands) != 1:
         raise CheckerError("anchor lookup: the recursive worker of %s::%s matched %d functions: %s"
                            % (owner, entry, len(cands), [c.npath for c in cands][:4]))
@@ -249,7 +261,7 @@ def from_sexpr(prog):
     te = fn.terms
     variants = variants_of(prog, "ser_logical_expr::LogicalSExpr")
     W = fn.name
-    out = check_table("DP", fn, te, te.ret, table_from_sexpr(W), variants, diverging=("True", "False"))
+    out = check_table("DP", fn, te, te.ret, table_from_sexpr(W), variants, diverging=("True", "False"), elsewhere=("Not",))
     arms = gamma_arms(te, te.ret) or {}
     key = fn.npath + ":Not"
     n = arms.get("Not")
@@ -266,18 +278,10 @@ def from_sexpr(prog):
                 e1 = "Not(Var) must become a negative literal, found %s" % show(v)
             else:
                 idx = strip(v[4][0])
-                from .base import expand
-                for _ in range(2):
-                    if isinstance(idx, tuple) and idx and idx[0] == "call" and idx[1].name != "unwrap":
-                        e_ = expand(idx)
-                        if e_ is None:
-                            break
-                        idx = strip(e_)
-                while isinstance(idx, tuple) and idx and idx[0] in ("deref", "ref"):
-                    idx = strip(idx[1])
-                ok2 = (isinstance(idx, tuple) and idx[0] == "call" and idx[1].name == "unwrap")
-                if not ok2:
-                    e1 = "literal index is not map.get(name).unwrap(): %s" % show(idx)
+                name = ("field", ("as", ("field", ("as", ("param", 1), "Not"), "0"), "Var"), "0")
+                inside = [show(u) for u in [idx] + list(mir.subterms(idx))]
+                if not (any("as Var).0" in u and "as Not)" in u for u in inside) and "arg2" in show(idx)):
+                    e1 = "the label of Not(Var s) is not looked up for s in the mapping: %s" % show(idx)
             rest = [inner[k] for k in inner if isinstance(k, tuple) and k[0] == "rest"]
             e2 = None
             if not rest:
